@@ -26,6 +26,9 @@ type histOp struct {
 	NoSerialise bool
 	// CloseSession: issued through Session.Close.
 	Close bool
+	// Custom: a high-level call (SDR retrieval, discovery, DCMI enumeration)
+	// instead of a single SendCommand; returns a rendering of its result.
+	Custom func(w *World, conn bmc.Connection, sess *bmc.V2Session) (string, error)
 }
 
 func fsrBytes(id uint16, num byte, name string) []byte {
@@ -379,6 +382,13 @@ func runHistory(cfg histCfg, ch *env.Chooser) *histObs {
 		if op.Close {
 			var err error
 			r.Panic = guard(func() { err = sess.Close(w.Ctx) })
+			r.ErrNil = err == nil
+			if err != nil {
+				r.Err = err.Error()
+			}
+		} else if op.Custom != nil {
+			var err error
+			r.Panic = guard(func() { r.Rsp, err = op.Custom(w, conn, sess) })
 			r.ErrNil = err == nil
 			if err != nil {
 				r.Err = err.Error()
